@@ -227,5 +227,7 @@ def one(ctx, dn):
 
 
 def run(ctx, dn):
+    from ..core import case_deadline
     while ctx.time_left() > 1:
-        one(ctx, dn)
+        with case_deadline(ctx, 20):
+            one(ctx, dn)
